@@ -118,7 +118,8 @@ type diskObs struct {
 	H, St, Wins, Snap, L1 string
 	WinBits               map[string]string
 	SnapBits              string
-	Init, InitBits        string
+	Init, InitBits        string // core.InitializeRunningEventFilter on the image (never-pruned nodes)
+	InitP, InitPBits      string // pruner.InitializeRunningEventFilter on the image
 	Head, Above           string // blkobs of the head block and of the number above it
 	Floor                 string // OldestRetainedBlock
 	AtFloor, BelowFloor   string // blkobs of the oldest retained block and the one below it
@@ -229,15 +230,20 @@ func (t *trace) observeDisk(store db.KeyValueStore, full bool) diskObs {
 		o.L1 = fmt.Sprint(l1.BlockNumber)
 	}
 	if full {
-		if rf, err := restartFilter(store, t.sc.Pruning); err == nil {
+		obsInit := func(pruning bool) (string, string) {
+			rf, err := restartFilter(store, pruning)
+			if err != nil {
+				return "err", "err"
+			}
 			nx, _ := rf.NextBlock()
 			lo, _ := rf.FromBlock()
-			o.Init = fmt.Sprintf("%d/%d", lo, nx)
 			in, _ := rf.InnerFilter()
-			o.InitBits = t.cellsOf(in)
-		} else {
-			o.Init, o.InitBits = "err", "err"
+			return fmt.Sprintf("%d/%d", lo, nx), t.cellsOf(in)
 		}
+		if !t.sc.Pruning {
+			o.Init, o.InitBits = obsInit(false)
+		}
+		o.InitP, o.InitPBits = obsInit(true)
 	}
 	return o
 }
@@ -253,6 +259,9 @@ type stepRec struct {
 	skip    bool // a fault inside a prune: commit numbering is not comparable, stop here
 	quiet   bool // only the result was recorded (steps of a fault run before the fault)
 	lazy    bool // the in-memory filter was not observed (left lazy)
+	// StateAtBlockNumber(k) hands out a reader / refuses, for a sample of k (the decision of the
+	// in-memory retention floor, or of the database probe when the floor is not seeded)
+	served [][2]uint64
 }
 
 type crashRec struct {
@@ -290,6 +299,9 @@ func (t *trace) opLine(s *Step) string {
 	case "l1head":
 		return fmt.Sprintf("l1head %d", s.L1.BlockNumber)
 	case "prune":
+		if t.sc.ViaPruner {
+			return fmt.Sprintf("l1event %d %d", s.PruneTo+s.Retained, s.Retained)
+		}
 		return fmt.Sprintf("prune %d", s.PruneTo)
 	}
 	return s.Op
@@ -334,6 +346,7 @@ func (t *trace) stepQL(s *Step, err error, n *Node, store db.KeyValueStore, quie
 		t.steps = append(t.steps, rec)
 		return
 	}
+	rec.served = servedSample(n, store, s)
 	if lazy {
 		rec.mem, rec.memBits = "lazy", "-"
 		rec.disk = t.observeDisk(store, true)
@@ -365,7 +378,19 @@ func obsLine(o diskObs, mem string) string {
 // script assembles the model requests with the implementation's answers.
 func (t *trace) script() (lines, want []string) {
 	add := func(l, w string) { lines = append(lines, l); want = append(want, w) }
-	add(fmt.Sprintf("cfg %d %s", core.NumBlocksPerFilter, t.fixes), "ok")
+	// fifth flag: which initialiser the node's lazily initialised filter uses. blockchain.New
+	// installs pruner.InitializeRunningEventFilter (floor-aware) unless the option
+	// WithRunningEventFilterInitializer says otherwise: the model's calls are then `execP`.
+	pflag := "1"
+	if t.sc.CoreInit {
+		pflag = "0"
+	}
+	// sixth flag: the node is wired as node.New does (shared, seeded retention floor + Pruner service)
+	wflag := "0"
+	if t.sc.ViaPruner {
+		wflag = "1"
+	}
+	add(fmt.Sprintf("cfg %d %s%s%s", core.NumBlocksPerFilter, t.fixes, pflag, wflag), "ok")
 	if t.sc.Base != nil {
 		for _, b := range t.sc.BaseWorld.Chain {
 			add("blk "+t.ids.blockArgs(t.sc.U, b, parentRoot(t.sc.BaseWorld.Chain, b)), "ok")
@@ -375,16 +400,18 @@ func (t *trace) script() (lines, want []string) {
 			nx, _ := s.NextBlock()
 			snap = fmt.Sprint(nx)
 		}
+		if f, err := pruner.OldestRetainedBlock(t.sc.Base); err == nil && f > 0 {
+			snap += fmt.Sprintf(" %d", f)
+		}
 		add("base "+snap, "ok")
 	}
-	// a pruning node initialises its filter with pruner.InitializeRunningEventFilter: the model's
-	// calls use the plain initialiser, so on a pruning node the filter is brought up with the
-	// pruning-aware one (`touchp`) before every call
+	// the model's calls initialise a lazy filter with the initialiser the node was built with
+	// (cfg flag above), inside the call, as the real code does; `touch` = an observation of the
+	// in-memory filter. Both initialisers are compared on every image of a never-pruned node
+	// (core.InitializeRunningEventFilter = `init`, pruner.InitializeRunningEventFilter = `initp`);
+	// on a pruned image only the floor-aware one is defined.
 	pr := t.sc.Pruning
-	touch, initc, initb := "touch", "init", "initbits"
-	if pr {
-		touch, initc, initb = "touchp", "initp", "initpbits"
-	}
+	touch := "touch"
 	diskChecks := func(o diskObs) {
 		for _, lo := range strings.Split(o.Wins, ",") {
 			if lo != "-" && lo != "" {
@@ -394,9 +421,15 @@ func (t *trace) script() (lines, want []string) {
 		if o.Snap != "-" {
 			add("snapbits", o.SnapBits)
 		}
-		add(initc, o.Init)
-		if o.Init != "err" {
-			add(initb, o.InitBits)
+		if !pr {
+			add("init", o.Init)
+			if o.Init != "err" {
+				add("initbits", o.InitBits)
+			}
+		}
+		add("initp", o.InitP)
+		if o.InitP != "err" {
+			add("initpbits", o.InitPBits)
 		}
 		if pr {
 			add("floor", o.Floor)
@@ -427,9 +460,6 @@ func (t *trace) script() (lines, want []string) {
 			c := t.crashes[ci]
 			ci++
 			add("save", "ok")
-			if pr && !strings.HasPrefix(st.line, "prune") {
-				add("touchp", "ok")
-			}
 			add(st.line+" "+c.fault, "ok")
 			add("obsd", obsLine(c.disk, "lazy"))
 			diskChecks(c.disk)
@@ -442,12 +472,12 @@ func (t *trace) script() (lines, want []string) {
 		if st.fault != "" {
 			l += " " + st.fault
 		}
-		if pr && !strings.HasPrefix(st.line, "prune") && st.line != "kill" {
-			add("touchp", "ok")
-		}
 		add(l, st.out)
 		if st.quiet {
 			continue
+		}
+		for _, kv := range st.served {
+			add(fmt.Sprintf("served %d", kv[0]), map[uint64]string{0: "n", 1: "y"}[kv[1]])
 		}
 		if st.lazy {
 			add("obs", obsLine(st.disk, "lazy"))
@@ -512,6 +542,44 @@ func clipAll(xs []string) []string {
 	out := make([]string, len(xs))
 	for i, x := range xs {
 		out[i] = clip(x)
+	}
+	return out
+}
+
+// servedSample asks the live node for the state at a handful of block numbers around the disk's
+// retention floor, the step's prune target, and the head.
+func servedSample(n *Node, store db.KeyValueStore, s *Step) [][2]uint64 {
+	set := map[uint64]bool{0: true, 1: true}
+	around := func(x uint64) {
+		for d := uint64(0); d < 3; d++ {
+			set[x+d] = true
+			if x >= d {
+				set[x-d] = true
+			}
+		}
+	}
+	if f, err := pruner.OldestRetainedBlock(store); err == nil {
+		around(f)
+	}
+	if s.Op == "prune" {
+		around(s.PruneTo)
+	}
+	if h, err := core.GetChainHeight(store); err == nil {
+		around(h)
+	}
+	ks := make([]uint64, 0, len(set))
+	for k := range set {
+		ks = append(ks, k)
+	}
+	sort.Slice(ks, func(i, j int) bool { return ks[i] < ks[j] })
+	out := make([][2]uint64, 0, len(ks))
+	for _, k := range ks {
+		v := uint64(0)
+		if _, closer, err := n.bc.StateAtBlockNumber(k); err == nil {
+			_ = closer()
+			v = 1
+		}
+		out = append(out, [2]uint64{k, v})
 	}
 	return out
 }
